@@ -130,8 +130,26 @@ func (k *kworld) checkWallet(t *rapid.T, ii int, kw *kwallet, sign bool) {
 	for _, a := range am.ListAddresses() {
 		known[a] = true
 	}
-	if len(known) != n {
-		t.Fatalf("instance %d: keystore holds %d addresses, counter says %d", ii, len(known), n)
+	ni := int(info.InternalKeyCount)
+	if len(known) != n+ni {
+		t.Fatalf("instance %d: keystore holds %d addresses, counters say %d external + %d internal", ii, len(known), n, ni)
+	}
+	for i := 0; i < ni; i++ {
+		a := kw.keys.AddrInternal(uint32(i))
+		if !known[a.Std] {
+			t.Fatalf("instance %d wallet %s: internal address at index %d should be %s (m/44'/coin'/1'/1/%d) but the wallet does not hold it; it holds %v", ii, kw.id[:10], i, a.Std, i, sortedSet(known))
+		}
+		if sign {
+			pub, _ := btcec.ParsePubKey(a.Pub[:], btcec.S256())
+			h := sha256.Sum256([]byte(fmt.Sprintf("verif-internal-%d-%d", ii, i)))
+			sig, err := in.env.W.VerifKeystore().SignHash(pub, h[:], []byte(kw.keys.Pass))
+			if err != nil {
+				t.Fatalf("instance %d wallet %s: SignHash for internal address #%d with the right passphrase: %v", ii, kw.id[:10], i, err)
+			}
+			if !sig.Verify(h[:], pub) {
+				t.Fatalf("instance %d wallet %s: signature for internal address #%d does not verify under the public key the address commits to", ii, kw.id[:10], i)
+			}
+		}
 	}
 	for i := 0; i < n; i++ {
 		a := kw.keys.Addr(uint32(i))
@@ -374,7 +392,11 @@ func propC0405(t *rapid.T) {
 			if hint > 0 {
 				hint = uint32(rapid.IntRange(0, int(hint)).Draw(t, "hint"))
 			}
-			ws, err := in.env.W.ImportWalletWithMnemonic(&keystore.WalletParams{Mnemonic: kw.keys.Mnemonic, PrivatePassphrase: []byte(kw.keys.Pass), Remarks: "m", ExternalIndex: hint, AddressGapLimit: 20})
+			ihint := uint32(0)
+			if rapid.IntRange(0, 2).Draw(t, "withInternalHint") == 0 {
+				ihint = uint32(rapid.IntRange(1, 3).Draw(t, "internalHint"))
+			}
+			ws, err := in.env.W.ImportWalletWithMnemonic(&keystore.WalletParams{Mnemonic: kw.keys.Mnemonic, PrivatePassphrase: []byte(kw.keys.Pass), Remarks: "m", ExternalIndex: hint, InternalIndex: ihint, AddressGapLimit: 20})
 			if err != nil {
 				t.Fatalf("ImportWalletWithMnemonic: %v", err)
 			}
@@ -383,7 +405,7 @@ func propC0405(t *rapid.T) {
 			}
 			in.has[kw.id] = true
 			k.finish(t, in)
-			k.logf("import mnemonic wallet %s into instance %d hint %d", kw.id[:10], ii, hint)
+			k.logf("import mnemonic wallet %s into instance %d hint %d internal hint %d", kw.id[:10], ii, hint, ihint)
 			k.checkWallet(t, ii, kw, true)
 		},
 		"create": func(t *rapid.T) {
@@ -613,6 +635,11 @@ func propC0405(t *rapid.T) {
 			}
 			k.pubPass = newPass
 			k.logf("public passphrase changed")
+			if !rapid.Bool().Draw(t, "restartAfterChange") {
+				// the session goes on with the new public passphrase: wallets created or imported
+				// from here on are protected by it and must open after a later restart
+				return
+			}
 			for ii, in := range k.inst {
 				if err := in.env.Restart(); err != nil {
 					t.Fatalf("reopen with the new public passphrase (instance %d): %v", ii, err)
